@@ -238,6 +238,7 @@ class Builder:
         g = Graph()
         self.g = g
         frame = Frame(concrete, defcls, fn)
+        frame.norm_func = norm_func(self.P, fn)
         g.entry = g.add('entry', None, frame, 'ENTRY ' + frame.qual)
         g.exit = g.add('exit', None, frame, 'EXIT')
         g.raise_exit = g.add('raise_exit', None, frame, 'RAISE-EXIT')
@@ -508,6 +509,26 @@ class Builder:
             return f, t
         if isinstance(test, ast.Constant):
             return (frontier, []) if test.value else ([], frontier)
+        # a private predicate property of the class (`self._holds_resources`, getter `return self._reserved_resources != None`, or a
+        # conjunction of such tests) is the condition its getter returns: reading it has no other effect
+        if is_self_attr(test) and frame.concrete is not None and getattr(frame, 'kind', None) != 'static' and ctx is not None:
+            pg = self.P.lookup_prop(frame.concrete, test.attr, 'get')
+            hit_ = self.P.lookup(frame.concrete, test.attr)
+            if pg and hit_ and hit_[1] == 'prop':
+                body_ = [s_ for s_ in pg[1].body if not (isinstance(s_, ast.Expr) and isinstance(s_.value, ast.Constant))]
+                if len(body_) == 1 and isinstance(body_[0], ast.Return) and isinstance(body_[0].value, (ast.Compare, ast.BoolOp, ast.UnaryOp)) \
+                        and not any(isinstance(x, (ast.Call, ast.Lambda, ast.NamedExpr)) for x in ast.walk(body_[0].value)) \
+                        and all(x.id == 'self' for x in ast.walk(body_[0].value) if isinstance(x, ast.Name)) \
+                        and getattr(self, '_prop_depth', 0) < 4:
+                    self._prop_depth = getattr(self, '_prop_depth', 0) + 1
+                    try:
+                        import copy as _copy
+                        e_ = _copy.deepcopy(body_[0].value)
+                        for x in ast.walk(e_):
+                            ast.copy_location(x, test)
+                        return self._cond(e_, frontier, frame, ctx)
+                    finally:
+                        self._prop_depth -= 1
         # any(<generator>) / all(<generator>): the short-circuit loop it stands for (a list comprehension evaluates every element
         # first -- different side effects -- and is left alone)
         if isinstance(test, ast.Call) and isinstance(test.func, ast.Name) and test.func.id in ('any', 'all') and len(test.args) == 1 \
@@ -644,6 +665,7 @@ class Builder:
         static = fn.name in defcls.static
         callee = Frame(frame.concrete, defcls, fn, parent=frame, call=call,
                        kind='static' if static else kind)
+        callee.norm_func = norm_func(self.P, fn)
         g.inlined.add((frame.id, id(call)))
         g.call_frames[(frame.id, id(call))] = callee
         enter = g.add('call_enter', call, callee, 'CALL ' + callee.qual)
@@ -927,6 +949,25 @@ def alias_inline(fn, stmts):
 
 
 
+def _record_classes(P):
+    """classes whose instances are plain records handled by the package: no base class from the package (object or a named tuple), no subclass in the
+    package, and a private name or the event class -- a method that such a class alone defines cannot be overridden behind the package's back"""
+    cached = P.__dict__.get('_sa_record_classes')
+    if cached is not None:
+        return cached
+    out = set()
+    allc = [c for cs in P.by_name.values() for c in cs]
+    for c in allc:
+        if len(c.mro) > 1 and any(k is not c for k in c.mro):
+            continue
+        if any(c in k.mro and k is not c for k in allc):
+            continue
+        if c.name.startswith('_') or c.name == 'Event':
+            out.add(c)
+    P.__dict__['_sa_record_classes'] = out
+    return out
+
+
 def _element_predicates(P):
     """{method name: (class, FunctionDef, formula)} for the methods that exactly one class of the package defines, that no module-level
     function shares a name with, and whose body is a call-free boolean formula over `self` and the parameters: `return E`,
@@ -969,10 +1010,17 @@ def _element_predicates(P):
                 formula = body[0].test
             elif const(body[0].body[0], False) and const(body[0].orelse[0], True):
                 formula = ast.UnaryOp(op=ast.Not(), operand=body[0].test)
-        if formula is None or not isinstance(formula, (ast.Compare, ast.BoolOp, ast.UnaryOp)):
-            continue       # a comparison / conjunction: a predicate about the object, not an accessor
         params = {a.arg for a in f.args.args}
-        if any(isinstance(x, (ast.Call, ast.Lambda, ast.NamedExpr, ast.Await, ast.Yield)) for x in ast.walk(formula)):
+        delegation = False
+        if formula is not None and c in _record_classes(P) and isinstance(formula, ast.Call) and len(body) == 1:
+            # a record's accessor that forwards to one call (`def get_duration(self): return self.target.get_work_order_duration(self.tag)`):
+            # the call itself with self := the record; every parameter is used exactly once, so nothing is evaluated twice or not at all
+            inner = [x for x in ast.walk(formula) if isinstance(x, (ast.Call, ast.Lambda, ast.NamedExpr, ast.Await, ast.Yield))]
+            uses = {p_: sum(1 for x in ast.walk(formula) if isinstance(x, ast.Name) and x.id == p_) for p_ in params if p_ != 'self'}
+            delegation = inner == [formula] and all(v == 1 for v in uses.values())
+        if formula is None or not (delegation or isinstance(formula, (ast.Compare, ast.BoolOp, ast.UnaryOp))):
+            continue       # a comparison / conjunction: a predicate about the object, not an accessor
+        if not delegation and any(isinstance(x, (ast.Call, ast.Lambda, ast.NamedExpr, ast.Await, ast.Yield)) for x in ast.walk(formula)):
             continue
         if any(isinstance(x, ast.Name) and x.id not in params for x in ast.walk(formula)):
             continue
@@ -1197,12 +1245,19 @@ def inline_foreign_setters(P, fn, stmts):
     import copy
     table = _unique_methods(P)
 
-    def setter_body(fd):
+    def setter_body(fd, record=False):
         body = [s_ for s_ in fd.body if not (isinstance(s_, ast.Expr) and isinstance(s_.value, ast.Constant))]
         if not body:
             return None
         params = {a.arg for a in fd.args.args}
         for s_ in body:
+            if record and len(body) == 1 and isinstance(s_, ast.Expr) and isinstance(s_.value, ast.Call):
+                # a record's method that forwards to one call (`def start(self): self.target.start_work(self.tag)`)
+                inner = [x for x in ast.walk(s_.value) if isinstance(x, (ast.Call, ast.Lambda, ast.NamedExpr))]
+                uses = {p_: sum(1 for x in ast.walk(s_.value) if isinstance(x, ast.Name) and x.id == p_) for p_ in params if p_ != 'self'}
+                if inner == [s_.value] and all(v == 1 for v in uses.values()) and all(x.id in params for x in ast.walk(s_.value) if isinstance(x, ast.Name)):
+                    continue
+                return None
             if not (isinstance(s_, (ast.Assign, ast.AugAssign))):
                 return None
             tg = s_.targets if isinstance(s_, ast.Assign) else [s_.target]
@@ -1224,7 +1279,7 @@ def inline_foreign_setters(P, fn, stmts):
         c, fd = table[f.attr]
         if fd is fn or fd.decorator_list or fd.args.vararg or fd.args.kwarg or fd.args.kwonlyargs or not fd.args.args or fd.args.args[0].arg != 'self':
             return None
-        body = setter_body(fd)
+        body = setter_body(fd, record=c in _record_classes(P))
         if body is None:
             return None
         ps = [a.arg for a in fd.args.args[1:]]
@@ -1304,6 +1359,60 @@ def inline_foreign_setters(P, fn, stmts):
 
 
 
+def unstar_calls(fn, stmts):
+    """`f(a, *t)` where every definition of the local t in the function is a tuple display of the same length k: rewritten to
+    `f(a, t[0], ..., t[k-1])` -- the same call, with the arguments visible to the parameter binding of the inliner"""
+    import copy
+    lens = {}
+    for x in ast.walk(fn):
+        if isinstance(x, ast.Assign) and len(x.targets) == 1 and isinstance(x.targets[0], ast.Name):
+            k = len(x.value.elts) if isinstance(x.value, ast.Tuple) and not any(isinstance(e, ast.Starred) for e in x.value.elts) else None
+            lens.setdefault(x.targets[0].id, set()).add(k)
+        elif isinstance(x, ast.Name) and isinstance(x.ctx, (ast.Store, ast.Del)):
+            lens.setdefault(x.id, set())
+    for x in ast.walk(fn):
+        if isinstance(x, (ast.For, ast.comprehension, ast.AugAssign, ast.withitem, ast.NamedExpr)):
+            for y in ast.walk(x.target if hasattr(x, 'target') else (x.optional_vars or ast.Tuple(elts=[], ctx=ast.Load()))):
+                if isinstance(y, ast.Name):
+                    lens.setdefault(y.id, set()).add(None)
+    ok = {n: next(iter(v)) for n, v in lens.items() if len(v) == 1 and None not in v}
+    if not ok or not any(isinstance(x, ast.Starred) and isinstance(x.value, ast.Name) and x.value.id in ok for st in stmts for x in ast.walk(st)):
+        return stmts
+
+    class T(ast.NodeTransformer):
+        changed = False
+
+        def visit_FunctionDef(self, n):
+            return n
+
+        def visit_Lambda(self, n):
+            return n
+
+        def visit_Call(self, n):
+            self.generic_visit(n)
+            if any(isinstance(a, ast.Starred) and isinstance(a.value, ast.Name) and a.value.id in ok for a in n.args):
+                args = []
+                for a in n.args:
+                    if isinstance(a, ast.Starred) and isinstance(a.value, ast.Name) and a.value.id in ok:
+                        for i in range(ok[a.value.id]):
+                            args.append(ast.copy_location(ast.Subscript(value=ast.copy_location(ast.Name(id=a.value.id, ctx=ast.Load()), a), slice=ast.Constant(i), ctx=ast.Load()), a))
+                    else:
+                        args.append(a)
+                T.changed = True
+                return ast.copy_location(ast.Call(func=n.func, args=args, keywords=n.keywords), n)
+            return n
+    out = []
+    for st in stmts:
+        T.changed = False
+        new = T().visit(copy.deepcopy(st))
+        if T.changed:
+            out.append(ast.fix_missing_locations(new))
+        else:
+            out.append(st)
+    return out
+
+
+
 def foreign_prepass(P, fn):
     """only the passes that read logic moved onto other objects back in place (for analyses that have their own treatment of aliases)"""
     cached = fn.__dict__.get('_sa_foreign_prepass')
@@ -1314,12 +1423,25 @@ def foreign_prepass(P, fn):
     return res
 
 
+def norm_func(P, fn):
+    """shallow copy of the function whose body is the pre-passed one (for analyses that look at definitions: single_defs, FrameEnv)"""
+    cached = fn.__dict__.get('_sa_norm_func')
+    if cached is not None and cached[0] is fn.body and cached[1] is P:
+        return cached[2]
+    import copy
+    f2 = copy.copy(fn)
+    f2.__dict__.pop('_sa_memo', None)
+    f2.body = prepass(P, fn)
+    fn.__dict__['_sa_norm_func'] = (fn.body, P, f2)
+    return f2
+
+
 def prepass(P, fn):
     """the behaviour-preserving normalisations applied to a function body before its graph is built (cached on the node)"""
     cached = fn.__dict__.get('_sa_prepass')
     if cached is not None and cached[0] is fn.body and cached[1] is P:
         return cached[2]
-    res = inline_foreign_setters(P, fn, inline_foreign_tail_calls(P, fn, inline_element_predicates(P, fn, copy_propagate(fn))))
+    res = unstar_calls(fn, inline_foreign_setters(P, fn, inline_foreign_tail_calls(P, fn, inline_element_predicates(P, fn, copy_propagate(fn)))))
     fn.__dict__['_sa_prepass'] = (fn.body, P, res)
     return res
 
